@@ -59,6 +59,7 @@ func runC05(w *World, r *Report) {
 	c05FuncMap(w, r)
 	c05SchemaLoader(w, r)
 	c05EngineState(w, r, scope)
+	c05NoEnv(w, r, scope)
 	r.Rule("C05/WIRING", "EnableDNS is fed only from the option of the same name, carried into the install started by upgrade --install, and bound to its own command-line flag", 3)
 	checkWiring(w, r, "C05/WIRING", map[string]bool{"EnableDNS": true})
 	checkCarried(w, r, "C05/WIRING", []string{"EnableDNS"})
@@ -835,4 +836,29 @@ func c05EngineState(w *World, r *Report, scope map[*ssa.Function]bool) {
 		}
 	}
 	r.Check(bad == "", "C05/ENGINE-STATE", "render-path", "-", fmt.Sprintf("no package-level variable of helm is written in the %d functions of the render path", len(scope)), "package-level state is written during rendering: "+bad)
+}
+
+// c05NoEnv: nothing on the render path consults the process environment (a feature gate, a default
+// taken from a variable): the rendered output is a function of chart, values and options only.
+func c05NoEnv(w *World, r *Report, scope map[*ssa.Function]bool) {
+	r.Rule("C05/NO-ENV", "no function statically reachable from the render entry points calls an environment primitive (os.Getenv, os.LookupEnv, os.Environ, os.ExpandEnv, os/user)", 1)
+	var fns []*ssa.Function
+	for f := range scope {
+		fns = append(fns, f)
+	}
+	sort.Slice(fns, func(i, j int) bool { return fns[i].Pos() < fns[j].Pos() })
+	n := 0
+	for _, fn := range fns {
+		for _, c := range callInstrs(fn) {
+			f, _ := calleeOf(c.Common())
+			if classifySink(f) != sinkEnv {
+				continue
+			}
+			n++
+			r.Bad("C05/NO-ENV", siteKey(Site{fn, c, posOf(c)}), w.InstrPos(c), "the render path reads the process environment through "+fnPkgPath(f)+"."+f.Name()+": the same chart, values and options render differently in another environment")
+		}
+	}
+	if n == 0 {
+		r.OK("C05/NO-ENV", "none", "-", fmt.Sprintf("%d functions on the render path, none calls an environment primitive", len(fns)))
+	}
 }
